@@ -183,7 +183,13 @@ func VerifC09FileLocalhost() {
 
 // nonASCIIHosts: concrete non-ASCII hosts (mapped, fullwidth, mathematical, sharp s, ideographic dot):
 // only their spelling varies symbolically; the mapping itself is the real UTS-46 library's.
-var nonASCIIHosts = []string{"𝐀bc.Example", "ＡＢＣ.com", "faß.de", "a。b", "Bücher.example", "ǅ.com", "☃.net"}
+var nonASCIIHosts = []string{"𝐀bc.Example", "ＡＢＣ.com", "faß.de", "a。b", "Bücher.example", "ǅ.com", "☃.net",
+	// code points for which a case mapping, fold or normalisation applied to the literal spelling before
+	// domain-to-ASCII would be observable (computed against the real UTS-46 tables: the 43 code points where
+	// ToLower disagrees with the IDNA mapping, the 43 for ToUpper/ToTitle, the 86 for SimpleFold - one or
+	// two representatives per script - and compatibility/normalisation forms)
+	"İstanbul.example", "aıb.com", "STRAẞE.de", "Ⴀ.example", "Ⴥa.example", "ⴀ.ge", "Ӏa.com", "ӏa.com", "aΣ.gr", "ας.gr", "Ⅎ.com", "ⅎ.com", "Ↄ.com", "ↄ.com",
+	"ſ.com", "\u212a.com", "e\u0301.com", "ﬁ.com", "①.com", "㎒.com", "\u00ad-a.com", "a\u200db.com", "ⓐ.com"}
 
 func percentEncodeAll(s string, upper bool) string {
 	out := make([]byte, 0, 3*len(s))
